@@ -70,6 +70,7 @@ Notation parse_xyz_lines := (@parse_xyz_lines F Ftxt Ctxt rf f_of_int).
 Notation print_obj := (@print_obj F Ftxt Cx Ctxt pf).
 Notation parse_obj := (@parse_obj F Ftxt Cx Ctxt rf f_of_int).
 Notation parse_obj_lines := (@parse_obj_lines F Ftxt Ctxt rf f_of_int).
+Notation parse_obj_from := (@parse_obj_from F Ftxt Ctxt rf f_of_int).
 Notation obj_vertex_line := (@obj_vertex_line F Ftxt Ctxt pf).
 Notation obj_edge_line := (@obj_edge_line Ftxt Ctxt).
 Notation obj_face_line := (@obj_face_line Ftxt Ctxt).
@@ -115,29 +116,39 @@ Qed.
 Definition obj_acc_app (a b : list (list F) * list (list Z) * list (list Z)) :=
   let '(V1, E1, F1) := a in let '(V2, E2, F2) := b in (V1 ++ V2, E1 ++ E2, F1 ++ F2).
 
-(* each block of lines only adds to its own container *)
-Lemma obj_vertices_block (V : list (F * F * F)) rest acc :
-  parse_obj_lines rest = Some acc ->
-  parse_obj_lines (map obj_vertex_line V ++ rest) =
+(* each block of lines only adds to its own container; nv = the number of vertex lines before the block *)
+Lemma obj_vertices_block (V : list (F * F * F)) rest acc nv :
+  parse_obj_from (nv + zlen V) rest = Some acc ->
+  parse_obj_from nv (map obj_vertex_line V ++ rest) =
     Some (let '(V0, E0, F0) := acc in (map v3 V ++ V0, E0, F0)).
 Proof.
-  intros Hr. induction V as [|[[x y] z] V IH]; cbn [map app].
-  - rewrite Hr. now destruct acc as [[? ?] ?].
-  - cbn [parse_obj_lines]. rewrite IH. destruct acc as [[V0 E0] F0].
+  revert nv. induction V as [|[[x y] z] V IH]; intros nv Hr; cbn [map app].
+  - change (zlen (@nil (F * F * F))) with 0 in Hr. rewrite Z.add_0_r in Hr. rewrite Hr. now destruct acc as [[? ?] ?].
+  - cbn [Model.parse_obj_from].
+    change (obj_line_nv (obj_vertex_line (x, y, z))) with 1.
+    rewrite (IH (nv + 1)).
+    2:{ rewrite <- Hr. f_equal. unfold zlen. cbn [length]. lia. }
+    destruct acc as [[V0 E0] F0].
     unfold obj_step, obj_vertex_line. cbn [v3 map].
     change (is_word (TW obj_exp_kw_v) obj_imp_kw_v) with true. cbn iota.
     change (slice (TW obj_exp_kw_v :: [fl x; fl y; fl z]) obj_imp_v_lo obj_imp_v_hi) with (map fl [x; y; z]).
     rewrite omap_float_fl. reflexivity.
 Qed.
 
-Lemma obj_edges_block (E : list (Z * Z)) rest acc :
-  parse_obj_lines rest = Some acc ->
-  parse_obj_lines (map obj_edge_line E ++ rest) =
+Lemma obj_resolve_abs a nv : 0 <= a -> obj_imp_resolve (a + 1) nv = a.
+Proof. intros H. unfold obj_imp_resolve. destruct (a + 1 >? 0) eqn:E; lia. Qed.
+
+Lemma obj_edges_block (E : list (Z * Z)) rest acc nv :
+  Forall (fun e => 0 <= fst e /\ 0 <= snd e) E ->
+  parse_obj_from nv rest = Some acc ->
+  parse_obj_from nv (map obj_edge_line E ++ rest) =
     Some (let '(V0, E0, F0) := acc in (V0, map (fun e => keyify2 (fst e) (snd e)) E ++ E0, F0)).
 Proof.
-  intros Hr. induction E as [|[a b] E IH]; cbn [map app].
+  intros HE Hr. induction HE as [|[a b] E [Ha Hb] _ IH]; cbn [map app].
   - rewrite Hr. now destruct acc as [[? ?] ?].
-  - cbn [parse_obj_lines]. rewrite IH. destruct acc as [[V0 E0] F0].
+  - cbn [Model.parse_obj_from].
+    change (obj_line_nv (obj_edge_line (a, b))) with 0. rewrite Z.add_0_r.
+    rewrite IH. destruct acc as [[V0 E0] F0].
     unfold obj_step, obj_edge_line. cbn [fst snd].
     change (is_word (TW obj_exp_kw_l) obj_imp_kw_v) with false.
     change (is_word (TW obj_exp_kw_l) obj_imp_kw_vn) with false.
@@ -145,29 +156,64 @@ Proof.
     change (is_word (TW obj_exp_kw_l) obj_imp_kw_f) with false.
     change (is_word (TW obj_exp_kw_l) obj_imp_kw_l) with true. cbn iota.
     unfold obj_exp_edge. cbn [map skipn length Nat.ltb Nat.leb omap py_int Model.py_int option_map consecutive fst snd app].
-    unfold obj_imp_edge. replace (a + 1 - 1) with a by lia. replace (b + 1 - 1) with b by lia. reflexivity.
+    cbn [fst snd] in Ha, Hb. rewrite !obj_resolve_abs by assumption. reflexivity.
 Qed.
 
-Lemma obj_faces_block (Fs : list (list Z)) :
-  parse_obj_lines (map obj_face_line Fs) = Some ([], [], Fs).
+Lemma obj_faces_block (Fs : list (list Z)) nv :
+  Forall (Forall (fun i => 0 <= i)) Fs ->
+  parse_obj_from nv (map obj_face_line Fs) = Some ([], [], Fs).
 Proof.
-  induction Fs as [|f Fs IH]; [reflexivity|].
-  cbn [map parse_obj_lines]. rewrite IH. unfold obj_step, obj_face_line.
+  induction 1 as [|f Fs Hf _ IH]; [reflexivity|].
+  cbn [map Model.parse_obj_from].
+  change (obj_line_nv (obj_face_line f)) with 0. rewrite Z.add_0_r.
+  rewrite IH. unfold obj_step, obj_face_line.
   change (is_word (TW obj_exp_kw_f) obj_imp_kw_v) with false.
   change (is_word (TW obj_exp_kw_f) obj_imp_kw_vn) with false.
   change (is_word (TW obj_exp_kw_f) obj_imp_kw_vt) with false.
   change (is_word (TW obj_exp_kw_f) obj_imp_kw_f) with true. cbn iota. cbn [skipn].
   rewrite omap_map.
   rewrite (omap_ext_some _ (fun x => x)); [now rewrite map_id|].
-  intros v _. unfold obj_parse_vertex, obj_imp_vid, obj_exp_vid. cbn. f_equal. lia.
+  intros v Hv. unfold obj_parse_vertex, obj_exp_vid. cbn. f_equal. apply obj_resolve_abs.
+  rewrite Forall_forall in Hf. now apply Hf.
+Qed.
+
+(* well-formed indices: an index of a mesh is a natural number (the model's Z admits more) *)
+Definition nonneg_edges (E : list (Z * Z)) := Forall (fun e : Z * Z => 0 <= fst e /\ 0 <= snd e) E.
+Definition nonneg_elems (Fs : list (list Z)) := Forall (Forall (fun i => 0 <= i)) Fs.
+
+Lemma nthz_In {A} (l : list A) i x : nthz l i = Some x -> In x l.
+Proof. unfold nthz. destruct (i <? 0); [discriminate|]. apply nth_error_In. Qed.
+
+Lemma hard_edge_list_sub (m : mesh) ks el : hard_edge_list m ks = Some el -> forall e, In e el -> In e (mE m).
+Proof.
+  unfold hard_edge_list. revert el. induction ks as [|k ks IH]; intros el H e He.
+  - cbn in H. inversion H; subst. destruct He.
+  - cbn [omap] in H. destruct (py_nth (mE m) k) as [x|] eqn:Ek; [|discriminate].
+    destruct (omap (fun k0 => py_nth (mE m) k0) ks) as [r|] eqn:Er; [|discriminate].
+    inversion H; subst. destruct He as [<-|He].
+    + unfold py_nth in Ek. destruct (k <? 0); [|]; apply nthz_In in Ek; exact Ek.
+    + eapply IH; eauto.
+Qed.
+
+Lemma obj_exported_sub sw (m : mesh) el : obj_exported_edges sw m = Some el -> forall e, In e el -> In e (mE m).
+Proof.
+  unfold obj_exported_edges. intros H e He.
+  repeat match type of H with
+  | context [if ?c then _ else _] => destruct c
+  | context [match ?x with _ => _ end] => destruct x eqn:?
+  end; try discriminate; try (inversion H; subst; try assumption; try (now destruct He)).
+  all: try (eapply hard_edge_list_sub; eauto).
 Qed.
 
 Lemma obj_roundtrip sw (m : mesh) L :
+  nonneg_edges (mE m) -> nonneg_elems (mF m) ->
   print_obj sw m = Some L -> parse_obj L = vocab_obj sw m.
 Proof.
-  unfold print_obj, vocab_obj. destruct (obj_exported_edges sw m) as [el|]; [|discriminate].
-  intros H. inversion H; subst; clear H. unfold parse_obj.
-  rewrite (obj_vertices_block _ _ _ (obj_edges_block _ _ _ (obj_faces_block _))).
+  intros HE HF. unfold print_obj, vocab_obj. destruct (obj_exported_edges sw m) as [el|] eqn:Eel; [|discriminate].
+  intros H. inversion H; subst; clear H. unfold parse_obj, Model.parse_obj_lines.
+  assert (Hel : nonneg_edges el).
+  { apply Forall_forall. intros e He. unfold nonneg_edges in HE. rewrite Forall_forall in HE. apply HE. eapply obj_exported_sub; eauto. }
+  rewrite (obj_vertices_block _ _ _ _ (obj_edges_block _ _ _ _ Hel (obj_faces_block _ _ HF))).
   cbn. now rewrite !app_nil_r.
 Qed.
 
@@ -525,15 +571,78 @@ Qed.
 
 (* ---- obj : the reference writer's file loaded by mouette *)
 Lemma obj_loads_ref (m : mesh) :
+  nonneg_edges (mE m) -> nonneg_elems (mF m) ->
   parse_obj (ref_print_obj m) = Some (raw_of Cx (map v3 (mV m)) (map (fun e => keyify2 (fst e) (snd e)) (mE m)) (mF m) []).
 Proof.
-  unfold Ref.ref_print_obj, Model.parse_obj.
+  intros HE HF. unfold Ref.ref_print_obj, Model.parse_obj, Model.parse_obj_lines.
   change (map (fun v => W Ftxt Ctxt "v" :: map fl (v3 v)) (mV m)) with (map obj_vertex_line (mV m)).
   change (map (fun e : Z * Z => [W Ftxt Ctxt "l"; I Ftxt Ctxt (fst e + 1); I Ftxt Ctxt (snd e + 1)]) (mE m)) with (map obj_edge_line (mE m)).
   change (map (fun f => W Ftxt Ctxt "f" :: map (fun i => I Ftxt Ctxt (i + 1)) f) (mF m)) with (map obj_face_line (mF m)).
-  cbn [Model.parse_obj_lines].
-  rewrite (obj_vertices_block _ _ _ (obj_edges_block _ _ _ (obj_faces_block _))).
+  cbn [Model.parse_obj_from].
+  change (0 + obj_line_nv [W Ftxt Ctxt "#"; W Ftxt Ctxt "reference"; W Ftxt Ctxt "writer"] + obj_line_nv [W Ftxt Ctxt "o"; W Ftxt Ctxt "mesh"]) with 0.
+  rewrite (obj_vertices_block _ _ _ _ (obj_edges_block _ _ _ _ HE (obj_faces_block _ _ HF))).
   cbn. now rewrite !app_nil_r.
+Qed.
+
+(* ---- obj : RELATIVE references, as an independent writer may use them: after the n vertices, the vertex i (0 <= i < n) is
+   written i - n (-1 is the last vertex).  mouette resolves them against the vertices read so far. *)
+Definition obj_rel_face_line (n : Z) (f : list Z) : line := TW "f" :: map (fun i => TI (i - n)) f.
+Definition obj_rel_edge_line (n : Z) (e : Z * Z) : line := [TW "l"; TI (fst e - n); TI (snd e - n)].
+Definition ref_print_obj_rel (m : mesh) : list line :=
+  let n := zlen (mV m) in
+  map obj_vertex_line (mV m) ++ map (obj_rel_edge_line n) (mE m) ++ map (obj_rel_face_line n) (mF m).
+
+Lemma obj_resolve_rel i n : i < n -> obj_imp_resolve (i - n) n = i.
+Proof. intros H. unfold obj_imp_resolve. destruct (i - n >? 0) eqn:E; lia. Qed.
+
+Lemma obj_rel_faces_block (Fs : list (list Z)) n :
+  Forall (Forall (fun i => i < n)) Fs ->
+  parse_obj_from n (map (obj_rel_face_line n) Fs) = Some ([], [], Fs).
+Proof.
+  induction 1 as [|f Fs Hf _ IH]; [reflexivity|].
+  cbn [map Model.parse_obj_from].
+  change (obj_line_nv (obj_rel_face_line n f)) with 0. rewrite Z.add_0_r.
+  rewrite IH. unfold obj_step, obj_rel_face_line.
+  change (is_word (TW "f") obj_imp_kw_v) with false.
+  change (is_word (TW "f") obj_imp_kw_vn) with false.
+  change (is_word (TW "f") obj_imp_kw_vt) with false.
+  change (is_word (TW "f") obj_imp_kw_f) with true. cbn iota. cbn [skipn].
+  rewrite omap_map.
+  rewrite (omap_ext_some _ (fun x => x)); [now rewrite map_id|].
+  intros v Hv. unfold obj_parse_vertex. cbn. f_equal. apply obj_resolve_rel.
+  rewrite Forall_forall in Hf. now apply Hf.
+Qed.
+
+Lemma obj_rel_edges_block (E : list (Z * Z)) rest acc n :
+  Forall (fun e => fst e < n /\ snd e < n) E ->
+  parse_obj_from n rest = Some acc ->
+  parse_obj_from n (map (obj_rel_edge_line n) E ++ rest) =
+    Some (let '(V0, E0, F0) := acc in (V0, map (fun e => keyify2 (fst e) (snd e)) E ++ E0, F0)).
+Proof.
+  intros HE Hr. induction HE as [|[a b] E [Ha Hb] _ IH]; cbn [map app].
+  - rewrite Hr. now destruct acc as [[? ?] ?].
+  - cbn [Model.parse_obj_from].
+    change (obj_line_nv (obj_rel_edge_line n (a, b))) with 0. rewrite Z.add_0_r.
+    rewrite IH. destruct acc as [[V0 E0] F0].
+    unfold obj_step, obj_rel_edge_line. cbn [fst snd].
+    change (is_word (TW "l") obj_imp_kw_v) with false.
+    change (is_word (TW "l") obj_imp_kw_vn) with false.
+    change (is_word (TW "l") obj_imp_kw_vt) with false.
+    change (is_word (TW "l") obj_imp_kw_f) with false.
+    change (is_word (TW "l") obj_imp_kw_l) with true. cbn iota.
+    cbn [map skipn length Nat.ltb Nat.leb omap py_int Model.py_int option_map consecutive fst snd app].
+    cbn [fst snd] in Ha, Hb. rewrite !obj_resolve_rel by assumption. reflexivity.
+Qed.
+
+Lemma obj_loads_relative (m : mesh) :
+  Forall (fun e => fst e < zlen (mV m) /\ snd e < zlen (mV m)) (mE m) ->
+  Forall (Forall (fun i => i < zlen (mV m))) (mF m) ->
+  parse_obj (ref_print_obj_rel m) = Some (raw_of Cx (map v3 (mV m)) (map (fun e => keyify2 (fst e) (snd e)) (mE m)) (mF m) []).
+Proof.
+  intros HE HF. unfold ref_print_obj_rel, Model.parse_obj, Model.parse_obj_lines.
+  rewrite (obj_vertices_block (mV m) _ ([], map (fun e => keyify2 (fst e) (snd e)) (mE m) ++ [], mF m) 0).
+  - cbn. now rewrite !app_nil_r.
+  - rewrite Z.add_0_l. rewrite (obj_rel_edges_block _ _ _ _ HE (obj_rel_faces_block _ _ HF)). reflexivity.
 Qed.
 
 (* ---- medit : the reference writer's file loaded by mouette *)
